@@ -8,6 +8,7 @@ import flat
 from flat import opt, SLOT, World, Token, Model, classify_exc, _import_transitions, enc_env
 
 SEP = '_'
+CUR = {'sep': SEP}     # the separator of the case being run (NestedState.separator of a subclass)
 
 
 # ------------------------------------------------------------------ encoding
@@ -145,8 +146,10 @@ class HGen:
         return m, ne
 
 
-def gen_case(rng, hist_len=None, may=False, p_enum=0.0, **kw):
+def gen_case(rng, hist_len=None, may=False, p_enum=0.0, p_sep=0.0, p_queued=0.0, **kw):
     use_enum = rng.random() < p_enum if p_enum else False
+    use_sep = rng.choice(['.', '/', '->', '\u21a6']) if (p_sep and rng.random() < p_sep) else None
+    use_queued = bool(p_queued and rng.random() < p_queued)
     g = HGen(rng, **kw)
     m, ne = g.machine()
     fg = flat.Gen(rng)
@@ -183,6 +186,10 @@ def gen_case(rng, hist_len=None, may=False, p_enum=0.0, **kw):
     out = dict(machine=m, env=env, model=0, init=init, history=hist, cls='HierarchicalMachine')
     if use_enum:
         out['enum'] = 1     # states named by Enum members (member names reused on every level)
+    if use_sep:
+        out['sep'] = use_sep    # NestedState.separator of a subclass of the machine's state class
+    if use_queued:
+        out['queued'] = 1   # queued=True: events of the history go through the queue one by one
     return out
 
 
@@ -238,7 +245,22 @@ def add_cross_region(case, rng):
 
 # ------------------------------------------------------------------ implementation side
 def sname(path):
-    return SEP.join('s%d' % n for n in path)
+    return CUR['sep'].join('s%d' % n for n in path)
+
+
+def with_sep(cls, sep):
+    """the machine class with a state class whose separator is `sep`"""
+    if sep == SEP:
+        return cls
+    st = type('SepState', (cls.state_cls,), {'separator': sep})
+    return type(cls.__name__, (cls,), {'state_cls': st})
+
+
+def canon_queued(case, obs):
+    """a queued machine's trigger answers True whatever happened: the value is masked on both sides"""
+    if not case.get('queued') or not isinstance(obs, list) or obs[0] != 1:
+        return obs
+    return [1, obs[1], [[items, ([0, 'queued'] if res[0] == 0 else res), cfg] for items, res, cfg in obs[2]]]
 
 
 def forest_of_value(v):
@@ -255,7 +277,7 @@ def forest_of_value(v):
     root = []
     for s in flatl:
         cur = root
-        for seg in s.split(SEP):
+        for seg in s.split(CUR['sep']):
             try:
                 n = int(seg[1:])
             except ValueError:
@@ -297,7 +319,7 @@ class EnumNames(object):
         group(machine['states'], ())
 
     def label_path(self, path):
-        return SEP.join(self.member[tuple(path[:i + 1])].name for i in range(len(path)))
+        return CUR['sep'].join(self.member[tuple(path[:i + 1])].name for i in range(len(path)))
 
     def forest(self, v):
         paths = []
@@ -325,6 +347,10 @@ class EnumNames(object):
 
 
 def build_hsm(case, world, cls, extra_kwargs=None, model=None):
+    CUR['sep'] = case.get('sep', SEP)
+    cls = with_sep(cls, CUR['sep'])
+    if case.get('queued'):
+        extra_kwargs = dict(extra_kwargs or {}, queued=True)
     if case.get('enum'):
         return build_hsm_enum(case, world, cls, extra_kwargs, model)
     m = case['machine']
@@ -382,7 +408,7 @@ def build_hsm_enum(case, world, cls, extra_kwargs=None, model=None):
         full = tuple(scope) + tuple(rel)
         if cnt[0] % 2:
             return names.member[full]
-        return SEP.join(names.member[full[:i + 1]].name for i in range(len(scope), len(full)))
+        return CUR['sep'].join(names.member[full[:i + 1]].name for i in range(len(scope), len(full)))
 
     def tdict(e, t, scope):
         return dict(trigger='e%d' % e, source=ref(scope, t['src']), dest=None if t['dst'] is None else ref(scope, t['dst']),
